@@ -24,13 +24,15 @@ def encKind : Kind → Val
 /-- one property node as the discovery processors see it -/
 structure DProp where
   tag : String                 -- prop.Tag ("wire", "func", …)
-  tagEmpty : Bool              -- prop.TagVal == ""
+  tagVal : String              -- prop.TagVal
   kind : Kind                  -- prop.Type
-  byName : Option Nat := none  -- what Registry.GetMetaByName(prop.TagVal) answers (`none` = nil)
   returns : Option (List Nat) := none   -- the `returns` argument of a func tag: indices of the alternatives
 
 /-- what an index beyond the property list stands for: a node with an unrecognised tag (skipped by both processors) -/
-def DProp.dflt : DProp := { tag := "", tagEmpty := true, kind := .other }
+def DProp.dflt : DProp := { tag := "", tagVal := "", kind := .other }
+
+/-- the i-th property node -/
+def propAt (props : List DProp) (i : Nat) : DProp := props.getD i .dflt
 
 abbrev DW := List (List (Option Nat))
 
@@ -40,10 +42,11 @@ def encMetaD : Option Nat → Val
 
 def encInj (l : List (Option Nat)) : Val := .list (l.map encMetaD)
 
-def decInj : List Val → List (Option Nat)
-  | [] => []
-  | .ref i 0 :: rest => some i :: decInj rest
-  | _ :: rest => none :: decInj rest
+def decMetaD : Val → Option Nat
+  | .ref i 0 => some i
+  | _ => none
+
+def decInj (vs : List Val) : List (Option Nat) := vs.map decMetaD
 
 /-- the meaning of a type option token as a filter on providers (container.Type / container.InterfaceType) -/
 def typeMeaning : Val → Option (Prov → Bool)
@@ -52,42 +55,42 @@ def typeMeaning : Val → Option (Prov → Bool)
   | _ => none
 
 /-- container.Or over FuncNameAndResult tokens -/
-def orMeaning (funcRes : Nat → Nat → Prov → Bool) : List Val → Option (Prov → Bool)
+def orMeaning (funcRes : String → Nat → Prov → Bool) : List Val → Option (Prov → Bool)
   | [] => some (fun _ => false)
-  | .tuple [.str "funcRes", .int i, .int r] :: rest =>
-    (orMeaning funcRes rest).map (fun h => fun p => funcRes i.toNat r.toNat p || h p)
+  | .tuple [.str "funcRes", .str s, .int r] :: rest =>
+    (orMeaning funcRes rest).map (fun h => fun p => funcRes s r.toNat p || h p)
   | _ :: _ => none
 
 /-- the meaning of a func option token -/
-def funcMeaning (funcRes : Nat → Nat → Prov → Bool) (funcName : Nat → Prov → Bool) : Val → Option (Prov → Bool)
-  | .tuple [.str "funcName", .int i] => some (funcName i.toNat)
+def funcMeaning (funcRes : String → Nat → Prov → Bool) (funcName : String → Prov → Bool) : Val → Option (Prov → Bool)
+  | .tuple [.str "funcName", .str s] => some (funcName s)
   | .tuple [.str "or", .list opts] => orMeaning funcRes opts
   | _ => none
 
 def kindName : Nat → String
   | 80 => "ptr" | 81 => "iface" | 82 => "slice" | 83 => "slice" | _ => "other"
 
-/-- `funcRes i r p` = container.FuncNameAndResult(<TagVal of property i>, <alternative r>)(p);
-    `funcName i p` = container.FuncName(<TagVal of property i>)(p); `isActual` = the helper isActualKind (itself regenerated) -/
-def discFn (pop : List Prov) (props : List DProp) (funcRes : Nat → Nat → Prov → Bool) (funcName : Nat → Prov → Bool)
-    (isActual : Val → Val → Option Val) : String → List Val → DW → Option (Val × DW)
+/-- `byName s` = what Registry.GetMetaByName(s) answers (`none` = nil); `funcRes s r p` = container.FuncNameAndResult(s, <alternative r>)(p);
+    `funcName s p` = container.FuncName(s)(p); `isActual` = the helper isActualKind (itself regenerated) -/
+def discFn (pop : List Prov) (props : List DProp) (byName : String → Option Nat) (funcRes : String → Nat → Prov → Bool)
+    (funcName : String → Prov → Bool) (isActual : Val → Val → Option Val) : String → List Val → DW → Option (Val × DW)
   | "$definition.InjectTag", [], w => some (.str "wire", w)
   | "$definition.FuncTag", [], w => some (.str "func", w)
   | "$reflect.Pointer", [], w => some (.str "ptr", w)
   | "$reflect.Ptr", [], w => some (.str "ptr", w)
   | "$reflect.Interface", [], w => some (.str "iface", w)
   | "$reflect.Slice", [], w => some (.str "slice", w)
-  | ".Tag", [.ref i 20], w => some (.str (props.getD i .dflt).tag, w)
-  | ".TagVal", [.ref i 20], w => some (if (props.getD i .dflt).tagEmpty then .str "" else .tuple [.str "tagval", .int i], w)
-  | ".Type", [.ref i 20], w => some (encKind (props.getD i .dflt).kind, w)
+  | ".Tag", [.ref i 20], w => some (.str (propAt props i).tag, w)
+  | ".TagVal", [.ref i 20], w => some (.str (propAt props i).tagVal, w)
+  | ".Type", [.ref i 20], w => some (encKind (propAt props i).kind, w)
   | ".Kind", [.ref _ k], w => some (.str (kindName k), w)
   | ".Elem", [.ref t 82], w => some (.ref t 80, w)
   | ".Elem", [.ref i 83], w => some (.ref i 81, w)
   | "isActualKind", [t, k], w => (isActual t k).map (·, w)
   | "container.Type", [.ref t 80], w => some (.tuple [.str "type", .int t], w)
   | "container.InterfaceType", [.ref i 81], w => some (.tuple [.str "iface", .int i], w)
-  | "container.FuncName", [.tuple [.str "tagval", .int i]], w => some (.tuple [.str "funcName", .int i], w)
-  | "container.FuncNameAndResult", [.tuple [.str "tagval", .int i], .int r], w => some (.tuple [.str "funcRes", .int i, .int r], w)
+  | "container.FuncName", [.str s], w => some (.tuple [.str "funcName", .str s], w)
+  | "container.FuncNameAndResult", [.str s, .int r], w => some (.tuple [.str "funcRes", .str s, .int r], w)
   | "container.Or", [.list opts], w => some (.tuple [.str "or", .list opts], w)
   | "container.Or", [.nil], w => some (.tuple [.str "or", .list []], w)
   | "self.Registry.GetMetas", [opt], w =>
@@ -96,11 +99,10 @@ def discFn (pop : List Prov) (props : List DProp) (funcRes : Nat → Nat → Pro
       match typeMeaning opt, funcMeaning funcRes funcName fopt with
       | some f, some g => some (.list ((pop.filter (fun p => f p && g p)).map (fun p => .ref p.id 0)), w)
       | _, _ => none
-  | "self.Registry.GetMetaByName", [.tuple [.str "tagval", .int i]], w =>
-      some (encMetaD (props.getD i.toNat .dflt).byName, w)
+  | "self.Registry.GetMetaByName", [.str s], w => some (encMetaD (byName s), w)
   | ".Args", [.ref i 20], w => some (.ref i 22, w)
   | ".Find", [.ref i 22, .str "returns"], w =>
-      some (match (props.getD i .dflt).returns with
+      some (match (propAt props i).returns with
             | none => .tuple [.nil, .bool false]
             | some rs => .tuple [.list (rs.map (fun (r : Nat) => Val.int r)), .bool true], w)
   | ".Injects", [.ref i 20], w => some (encInj (w.getD i []), w)
@@ -112,45 +114,44 @@ def discFn (pop : List Prov) (props : List DProp) (funcRes : Nat → Nat → Pro
 
 /-! equation lemmas of `discFn`, one per primitive (unfolding the 40-way string match inside `simp` is too expensive) -/
 section eqs
-variable (pop : List Prov) (props : List DProp) (fr : Nat → Nat → Prov → Bool) (fnm : Nat → Prov → Bool) (isa : Val → Val → Option Val)
-theorem discFn_injectTag (w : DW) : discFn pop props fr fnm isa "$definition.InjectTag" [] w = some (.str "wire", w) := rfl
-theorem discFn_funcTag (w : DW) : discFn pop props fr fnm isa "$definition.FuncTag" [] w = some (.str "func", w) := rfl
-theorem discFn_rPointer (w : DW) : discFn pop props fr fnm isa "$reflect.Pointer" [] w = some (.str "ptr", w) := rfl
-theorem discFn_rPtr (w : DW) : discFn pop props fr fnm isa "$reflect.Ptr" [] w = some (.str "ptr", w) := rfl
-theorem discFn_rInterface (w : DW) : discFn pop props fr fnm isa "$reflect.Interface" [] w = some (.str "iface", w) := rfl
-theorem discFn_Tag (i : Nat) (w : DW) : discFn pop props fr fnm isa ".Tag" [.ref i 20] w = some (.str (props.getD i .dflt).tag, w) := rfl
-theorem discFn_TagVal (i : Nat) (w : DW) : discFn pop props fr fnm isa ".TagVal" [.ref i 20] w =
-    some (if (props.getD i .dflt).tagEmpty then .str "" else .tuple [.str "tagval", .int i], w) := rfl
-theorem discFn_Type (i : Nat) (w : DW) : discFn pop props fr fnm isa ".Type" [.ref i 20] w = some (encKind (props.getD i .dflt).kind, w) := rfl
-theorem discFn_Kind (a k : Nat) (w : DW) : discFn pop props fr fnm isa ".Kind" [.ref a k] w = some (.str (kindName k), w) := rfl
-theorem discFn_isActual (t k : Val) (w : DW) : discFn pop props fr fnm isa "isActualKind" [t, k] w = (isa t k).map (·, w) := rfl
-theorem discFn_cType (t : Nat) (w : DW) : discFn pop props fr fnm isa "container.Type" [.ref t 80] w = some (.tuple [.str "type", .int t], w) := rfl
-theorem discFn_cIface (t : Nat) (w : DW) : discFn pop props fr fnm isa "container.InterfaceType" [.ref t 81] w = some (.tuple [.str "iface", .int t], w) := rfl
-theorem discFn_cFuncName (i : Int) (w : DW) : discFn pop props fr fnm isa "container.FuncName" [.tuple [.str "tagval", .int i]] w =
-    some (.tuple [.str "funcName", .int i], w) := rfl
-theorem discFn_cFuncRes (i r : Int) (w : DW) : discFn pop props fr fnm isa "container.FuncNameAndResult" [.tuple [.str "tagval", .int i], .int r] w =
-    some (.tuple [.str "funcRes", .int i, .int r], w) := rfl
-theorem discFn_cOr (opts : List Val) (w : DW) : discFn pop props fr fnm isa "container.Or" [.list opts] w = some (.tuple [.str "or", .list opts], w) := rfl
-theorem discFn_cOrNil (w : DW) : discFn pop props fr fnm isa "container.Or" [.nil] w = some (.tuple [.str "or", .list []], w) := rfl
-theorem discFn_getMetas1 (opt : Val) (w : DW) : discFn pop props fr fnm isa "self.Registry.GetMetas" [opt] w =
+variable (pop : List Prov) (props : List DProp) (bn : String → Option Nat) (fr : String → Nat → Prov → Bool) (fnm : String → Prov → Bool) (isa : Val → Val → Option Val)
+theorem discFn_injectTag (w : DW) : discFn pop props bn fr fnm isa "$definition.InjectTag" [] w = some (.str "wire", w) := rfl
+theorem discFn_funcTag (w : DW) : discFn pop props bn fr fnm isa "$definition.FuncTag" [] w = some (.str "func", w) := rfl
+theorem discFn_rPointer (w : DW) : discFn pop props bn fr fnm isa "$reflect.Pointer" [] w = some (.str "ptr", w) := rfl
+theorem discFn_rPtr (w : DW) : discFn pop props bn fr fnm isa "$reflect.Ptr" [] w = some (.str "ptr", w) := rfl
+theorem discFn_rInterface (w : DW) : discFn pop props bn fr fnm isa "$reflect.Interface" [] w = some (.str "iface", w) := rfl
+theorem discFn_Tag (i : Nat) (w : DW) : discFn pop props bn fr fnm isa ".Tag" [.ref i 20] w = some (.str (propAt props i).tag, w) := rfl
+theorem discFn_TagVal (i : Nat) (w : DW) : discFn pop props bn fr fnm isa ".TagVal" [.ref i 20] w = some (.str (propAt props i).tagVal, w) := rfl
+theorem discFn_Type (i : Nat) (w : DW) : discFn pop props bn fr fnm isa ".Type" [.ref i 20] w = some (encKind (propAt props i).kind, w) := rfl
+theorem discFn_Kind (a k : Nat) (w : DW) : discFn pop props bn fr fnm isa ".Kind" [.ref a k] w = some (.str (kindName k), w) := rfl
+theorem discFn_isActual (t k : Val) (w : DW) : discFn pop props bn fr fnm isa "isActualKind" [t, k] w = (isa t k).map (·, w) := rfl
+theorem discFn_cType (t : Nat) (w : DW) : discFn pop props bn fr fnm isa "container.Type" [.ref t 80] w = some (.tuple [.str "type", .int t], w) := rfl
+theorem discFn_cIface (t : Nat) (w : DW) : discFn pop props bn fr fnm isa "container.InterfaceType" [.ref t 81] w = some (.tuple [.str "iface", .int t], w) := rfl
+theorem discFn_cFuncName (s : String) (w : DW) : discFn pop props bn fr fnm isa "container.FuncName" [.str s] w =
+    some (.tuple [.str "funcName", .str s], w) := rfl
+theorem discFn_cFuncRes (s : String) (r : Int) (w : DW) : discFn pop props bn fr fnm isa "container.FuncNameAndResult" [.str s, .int r] w =
+    some (.tuple [.str "funcRes", .str s, .int r], w) := rfl
+theorem discFn_cOr (opts : List Val) (w : DW) : discFn pop props bn fr fnm isa "container.Or" [.list opts] w = some (.tuple [.str "or", .list opts], w) := rfl
+theorem discFn_cOrNil (w : DW) : discFn pop props bn fr fnm isa "container.Or" [.nil] w = some (.tuple [.str "or", .list []], w) := rfl
+theorem discFn_getMetas1 (opt : Val) (w : DW) : discFn pop props bn fr fnm isa "self.Registry.GetMetas" [opt] w =
     (typeMeaning opt).map (fun f => (.list ((pop.filter f).map (fun p => .ref p.id 0)), w)) := rfl
-theorem discFn_getMetas2 (opt fopt : Val) (w : DW) : discFn pop props fr fnm isa "self.Registry.GetMetas" [opt, fopt] w =
+theorem discFn_getMetas2 (opt fopt : Val) (w : DW) : discFn pop props bn fr fnm isa "self.Registry.GetMetas" [opt, fopt] w =
     (match typeMeaning opt, funcMeaning fr fnm fopt with
      | some f, some g => some (.list ((pop.filter (fun p => f p && g p)).map (fun p => .ref p.id 0)), w)
      | _, _ => none) := rfl
-theorem discFn_byName (i : Int) (w : DW) : discFn pop props fr fnm isa "self.Registry.GetMetaByName" [.tuple [.str "tagval", .int i]] w =
-    some (encMetaD (props.getD i.toNat .dflt).byName, w) := rfl
-theorem discFn_Args (i : Nat) (w : DW) : discFn pop props fr fnm isa ".Args" [.ref i 20] w = some (.ref i 22, w) := rfl
-theorem discFn_Find (i : Nat) (w : DW) : discFn pop props fr fnm isa ".Find" [.ref i 22, .str "returns"] w =
-    some (match (props.getD i .dflt).returns with
+theorem discFn_byName (s : String) (w : DW) : discFn pop props bn fr fnm isa "self.Registry.GetMetaByName" [.str s] w =
+    some (encMetaD (bn s), w) := rfl
+theorem discFn_Args (i : Nat) (w : DW) : discFn pop props bn fr fnm isa ".Args" [.ref i 20] w = some (.ref i 22, w) := rfl
+theorem discFn_Find (i : Nat) (w : DW) : discFn pop props bn fr fnm isa ".Find" [.ref i 22, .str "returns"] w =
+    some (match (propAt props i).returns with
           | none => .tuple [.nil, .bool false]
           | some rs => .tuple [.list (rs.map (fun (r : Nat) => Val.int r)), .bool true], w) := rfl
-theorem discFn_Injects (i : Nat) (w : DW) : discFn pop props fr fnm isa ".Injects" [.ref i 20] w = some (encInj (w.getD i []), w) := rfl
-theorem discFn_setInjects (i : Nat) (vs : List Val) (w : DW) : discFn pop props fr fnm isa ".set:Injects" [.ref i 20, .list vs] w =
+theorem discFn_Injects (i : Nat) (w : DW) : discFn pop props bn fr fnm isa ".Injects" [.ref i 20] w = some (encInj (w.getD i []), w) := rfl
+theorem discFn_setInjects (i : Nat) (vs : List Val) (w : DW) : discFn pop props bn fr fnm isa ".set:Injects" [.ref i 20, .list vs] w =
     some (.tuple [], w.set i (decInj vs)) := rfl
-theorem discFn_append (a : List Val) (v : Val) (w : DW) : discFn pop props fr fnm isa "append" [.list a, v] w = some (.list (a ++ [v]), w) := rfl
-theorem discFn_appendNil (v : Val) (w : DW) : discFn pop props fr fnm isa "append" [.nil, v] w = some (.list [v], w) := rfl
-theorem discFn_appendSpread (a b : List Val) (w : DW) : discFn pop props fr fnm isa "append..." [.list a, .list b] w = some (.list (a ++ b), w) := rfl
+theorem discFn_append (a : List Val) (v : Val) (w : DW) : discFn pop props bn fr fnm isa "append" [.list a, v] w = some (.list (a ++ [v]), w) := rfl
+theorem discFn_appendNil (v : Val) (w : DW) : discFn pop props bn fr fnm isa "append" [.nil, v] w = some (.list [v], w) := rfl
+theorem discFn_appendSpread (a b : List Val) (w : DW) : discFn pop props bn fr fnm isa "append..." [.list a, .list b] w = some (.list (a ++ b), w) := rfl
 end eqs
 
 end Ioc.Sem
